@@ -786,6 +786,29 @@ def run_unit(unit_dir, workdir, tier='quick', rlimit=None, repo=REPO, extra_args
             other.append(e)
     exp_fail = set(meta['expected_fail'])
     twins = {f['name'] for f in meta['vacuity_twins']}
+    # Z3 runs incrementally over the functions of a module, so a proof near the edge can fail or pass depending on UNRELATED
+    # functions verified before it (observed: seed C10-7 changed `add` only and `update_state` stopped verifying).  A failing
+    # extracted function is therefore re-checked ALONE; what verifies alone is discharged (sound: it is a proof), what
+    # fails alone as well is reported.
+    res['rechecked_in_isolation'] = []
+    for f in meta['functions']:
+        if f['name'] in failed and f['name'] not in twins:
+            fname = f.get('fname', f['name'])
+            cmd2 = ['verus', gen, '--output-json', '--rlimit', str(rl), '--verify-root', '--verify-function', '*' + fname]
+            try:
+                p2 = subprocess.run(cmd2, capture_output=True, text=True, cwd=workdir, timeout=600)
+                js2 = json.loads(p2.stdout)
+                vr2 = js2.get('verification-results', {})
+                errs2 = parse_stderr(p2.stderr, gen)
+                still = [e for e in errs2 if any((owner(l) or {}).get('name') == f['name'] for l in e['lines'])]
+                clean = (not vr2.get('encountered-vir-error')) and vr2.get('verified', 0) >= 1 and not still \
+                    and not any('Resource limit' in '\n'.join(e['text']) for e in errs2) \
+                    and not any(owner(l) is None for e in errs2 for l in e['lines'][:1])
+                res['rechecked_in_isolation'].append({'function': f['name'], 'verified_alone': bool(clean)})
+                if clean:
+                    del failed[f['name']]
+            except Exception as ex:       # no verdict from the re-check: the original failure stands
+                res['rechecked_in_isolation'].append({'function': f['name'], 'verified_alone': False, 'note': str(ex)[:200]})
     # failures outside extracted fns: expected canaries are matched by name in the message text/lines
     other_real = []
     canary_seen = set()
